@@ -199,12 +199,17 @@ def pool():
     return _POOL
 
 
+# operations that take seconds each: one pool task per line
+HEAVY_OPS = ("rw.explore", "prop.c20")
+
+
 def impl_eval(lines, parallel=True):
     if not lines:
         return []
-    if not parallel or len(lines) < 64:
+    heavy = any(l.startswith(HEAVY_OPS) for l in lines)
+    if not parallel or (len(lines) < 64 and not heavy):
         return _impl_chunk(lines)
-    n = min(len(lines) // 16 + 1, NCPU * 8)
+    n = min(len(lines), NCPU * 8) if heavy else min(len(lines) // 16 + 1, NCPU * 8)
     chunks = [lines[i::n] for i in range(n)]
     res = pool().map(_impl_chunk, chunks)
     out = [None] * len(lines)
